@@ -13,6 +13,7 @@ import VsgModel.Generated.ClassUids
 import VsgModel.Generated.BFull2Rules
 import VsgModel.BFull2.Indent
 import VsgModel.BFull2.VSpaceCli
+import VsgModel.BFull2.AffixCli   -- wp2b
 namespace Vsgm.BFull2.Cli
 open Vsgm Vsgm.TM Vsgm.Wire
 
@@ -80,6 +81,9 @@ partial def loop (h out : IO.FS.Stream) (st : St) : IO Unit := do
     | none => out.putStrLn "unknown"
     | some r => out.putStrLn (runIndent st r (decStr style) (parseInt size))
     out.flush
+    loop h out st
+  | "AFX" :: args =>   -- wp2b
+    out.putStrLn (AffixCli.runAffix st.toks st.index args); out.flush
     loop h out st
   | "VSP" :: args =>
     out.putStrLn (VSpaceCli.runVSpace st.toks st.index args); out.flush
